@@ -303,6 +303,89 @@ def nondet_scan(repo, funcs):
     return sorted(set(out))
 
 
+MUTATORS = {"append", "add", "update", "setdefault", "pop", "popitem", "clear", "extend", "insert", "remove", "discard", "__setitem__", "sort", "reverse"}
+MEMO_DECORATORS = ("lru_cache", "cache", "cached_property")
+
+
+def _root(e):
+    """-> (root name, number of attribute/subscript steps) of an access path, or (None, 0)"""
+    k = 0
+    while isinstance(e, (ast.Attribute, ast.Subscript)):
+        e = e.value
+        k += 1
+    return (e.id, k) if isinstance(e, ast.Name) else (None, 0)
+
+
+def purity_scan(repo, funcs):
+    """state kept across calls by the given functions (the memo-cache / hidden-state scan): -> sorted list of
+    (function, text) for every
+      P1 store to an attribute of an existing object: `x.a = ..`, `x.a += ..`, `del x.a` (inside __init__/__new__ the
+         stores to attributes of `self` are the initialisation of a new object and are not listed);
+      P2 item store/delete or call of a mutating container method (append, add, update, setdefault, pop, ...) on a
+         container reached from `self.<attribute>` or from a module-level name;
+      P3 `global` / `nonlocal` statement, setattr()/object.__setattr__ call;
+      P4 memoising decorator (functools.lru_cache / cache / cached_property)."""
+    out = []
+    for q in funcs:
+        fi = repo.funcs.get(q)
+        if fi is None:
+            continue
+        modnames = set()
+        for n in fi.module.tree.body:
+            for t in (n.targets if isinstance(n, ast.Assign) else [n.target] if isinstance(n, (ast.AnnAssign, ast.AugAssign)) else []):
+                for x in ast.walk(t):
+                    if isinstance(x, ast.Name):
+                        modnames.add(x.id)
+        params = {a.arg for a in fi.node.args.args + fi.node.args.kwonlyargs + fi.node.args.posonlyargs}
+        local = set(params)
+        for n in ast.walk(fi.node):
+            if isinstance(n, ast.Name) and isinstance(n.ctx, ast.Store):
+                local.add(n.id)
+        is_init = fi.node.name in ("__init__", "__new__")
+        for d in fi.decorators:
+            if any(m in d for m in MEMO_DECORATORS):
+                out.append((q, "P4 @" + d))
+
+        def shared(e):
+            r, k = _root(e)
+            if r is None:
+                return False
+            if r == "self":
+                return k >= 1
+            return r in modnames and r not in local
+
+        for n in ast.walk(fi.node):
+            tg = []
+            if isinstance(n, ast.Assign):
+                tg = list(n.targets)
+            elif isinstance(n, (ast.AugAssign, ast.AnnAssign)):
+                tg = [n.target]
+            elif isinstance(n, ast.Delete):
+                tg = list(n.targets)
+            flat = []
+            for t in tg:
+                flat.extend(t.elts if isinstance(t, (ast.Tuple, ast.List)) else [t])
+            for t in flat:
+                if isinstance(t, ast.Attribute):
+                    r, k = _root(t)
+                    if is_init and r == "self" and k == 1:
+                        continue
+                    if r in local and r != "self" and r not in params and k == 1 and False:
+                        continue
+                    out.append((q, "P1 " + ast.unparse(n)[:90]))
+                elif isinstance(t, ast.Subscript) and shared(t.value):
+                    out.append((q, "P2 " + ast.unparse(n)[:90]))
+            if isinstance(n, (ast.Global, ast.Nonlocal)):
+                out.append((q, "P3 " + ast.unparse(n)[:90]))
+            if isinstance(n, ast.Call):
+                f = n.func
+                if isinstance(f, ast.Name) and f.id == "setattr" or isinstance(f, ast.Attribute) and f.attr == "__setattr__":
+                    out.append((q, "P3 " + ast.unparse(n)[:90]))
+                if isinstance(f, ast.Attribute) and f.attr in MUTATORS and shared(f.value) and not (is_init and _root(f.value) == ("self", 1)):
+                    out.append((q, "P2 " + ast.unparse(n)[:90]))
+    return sorted(set(out))
+
+
 def atomic_write_scan(repo, qualname="prov.model.ProvDocument.serialize"):
     """the write-to-path protocol of ProvDocument.serialize, checked on its AST (C17), independent of how the locals
     are called:  T = the name bound to the path returned by tempfile.mkstemp();  D = the parameter `destination` and
@@ -473,6 +556,16 @@ def run_scans(repo, spec):
         extra_nd = [x for x in nd if (x[0], x[2]) not in allowed_nd]
         res.append({"name": "scan:export-determinism", "ok": not extra_nd, "found": nd,
                     "detail": "calls of id/hash/random/time/uuid in export-reachable code: %s%s" % (nd, ("; NOT among the recorded ones: %s" % extra_nd) if extra_nd else "")})
+    if spec.get("export_purity"):
+        ep = spec["export_purity"]
+        hits, missing, reached = reach_scan(repo, ep["entries"], set(), set(ep.get("cuts", [])))
+        found = purity_scan(repo, [q for q in reached if q not in set(ep.get("cuts", []))])
+        allowed = {tuple(a) for a in ep.get("allowed", [])}
+        extra = [x for x in found if x not in allowed]
+        res.append({"name": "scan:export-purity", "ok": not extra and not missing, "found": found,
+                    "detail": "%d functions reachable from %d entry points; stores to existing objects, to containers reached from self or from module level, global statements and memoising decorators among them: %s%s%s" % (
+                        len(reached), len(ep["entries"]), found, ("; NOT among the recorded ones: %s" % extra) if extra else "",
+                        ("; entry points missing from the tree: %s" % missing) if missing else "")})
     if spec.get("atomic_write"):
         bad = atomic_write_scan(repo)
         res.append({"name": "scan:atomic-write", "ok": not bad, "found": bad,
